@@ -27,12 +27,16 @@ from ..pysym import PySym, Vec, Unsupported as PUnsupported
 
 EXPLANATION = (
     "Formula identity in exact arithmetic, decided by algebraic value numbering: the single-pass moment recurrences are shown to preserve their defining sums for a symbolic count (an induction step, "
-    "not a sample), the shape descriptors, shell normalisation, density conversion, Karplus relation and radius of gyration are reduced to rational normal forms and compared with the definitions, "
-    "and the flattened atom-pair bookkeeping of compute_contacts is checked as dataflow (same index for membership, count and offset).  Double-precision evaluation, eigen-solver accuracy and histogram "
-    "edge conventions are numerical and are not decided; nematic order, dipole moments and the inertia tensor are not covered.")
-NOT_DECIDED = ["floating-point agreement with the closed forms", "np.linalg.eigvalsh / np.histogram internals", "nematic order parameter, dipole moments, dielectric constant, isothermal compressibility, inertia tensor",
-               "the numerical values of the published Karplus coefficients"]
-ASSUMPTIONS = ["np.linalg.eigvalsh returns eigenvalues in ascending order", "1 amu / nm^3 = 1.66053907 kg / m^3"]
+    "not a sample); the Karplus relation and the shape descriptors built on the principal moments are reduced to rational normal forms; and the whole-array numpy descriptors - centres of geometry and "
+    "mass, radius of gyration, gyration and inertia tensors, Q tensor and nematic order, density, dipole moments, compute_contacts, squareform, compute_rdf and compute_rdf_t - are evaluated by "
+    "sa/tensym.py on a generic instance of every axis (2 frames x 4 atoms x 3 components, pairwise different lengths, every element a distinct symbol; model topologies with residues of unequal "
+    "size) and compared element for element with the definition built by the rule; eigen-solvers, histograms, minima and the distance kernels are opaque and the rule checks what they are applied to. "
+    "Nothing of mdtraj is executed; the model of the numpy operations is the checker's own.  Double-precision evaluation, eigen-solver accuracy and histogram edge conventions are numerical and are not decided.")
+NOT_DECIDED = ["floating-point agreement with the closed forms", "np.linalg.eigvalsh / np.histogram internals", "which eigenvector _compute_director picks (argmin over symbolic eigenvalues)",
+               "dielectric constant, isothermal compressibility, thermal expansion", "the numerical values of the published Karplus coefficients"]
+ASSUMPTIONS = ["np.linalg.eigvalsh returns eigenvalues in ascending order", "1 amu / nm^3 = 1.66053907 kg / m^3",
+               "the numpy operations modelled in sa/tensym.py are uniform in the axis lengths: an identity that holds on the generic instance (all axis lengths pairwise different) holds for every shape",
+               "compute_displacements returns minimum-image r[pair[1]] - r[pair[0]] (established by C05's kernel value numbering)"]
 FLOORS = {"C16-R1": 8, "C16-R2": 7, "C16-R3": 6, "C16-R4": 5, "C16-R5": 12, "C16-R6": 5, "C16-R7": 8, "C16-R8": 9, "C16-R9": 4}
 
 MOM = "mdtraj/geometry/src/moments.cpp"
